@@ -1,5 +1,5 @@
 (* The concrete instance the correspondence runs on: elements are (key, payload) pairs of
-   integers compared by key, ascending or descending (payloads tell equal keys apart).
+   integers compared by one of eight comparison functions (by key in both directions, with arbitrary magnitudes, coarsely, all-equal, by payload).
    Definitions only. *)
 From Coq Require Import ZArith List Bool.
 Import ListNotations.
@@ -8,14 +8,32 @@ Local Open Scope Z_scope.
 
 Definition elt : Type := (Z * Z)%type.
 
+Definition sgn3 (c : comparison) : Z := match c with Lt => -1 | Eq => 0 | Gt => 1 end.
+
+(* The comparison functions of the correspondence runs, by code (harness/cmd/heapqtrace cmpOf):
+   0 'a' cmp.Compare on the keys            1 'd' its negation
+   2 'A' 3*(a.K-b.K)  (arbitrary magnitudes) 3 'D' 7*(b.K-a.K)
+   4 'm' cmp.Compare(a.K/4, b.K/4) (coarse: keys tie in blocks of four; Go's / truncates: Z.quot)
+   5 'M' (b.K/4-a.K/4)*2                     6 'z' 0 (everything ties)
+   7 'p' a.P-b.P (by payload, whatever the keys) *)
+Definition ccmp (code : Z) (a b : elt) : Z :=
+  match code with
+  | 0 => sgn3 (Z.compare (fst a) (fst b))
+  | 1 => - sgn3 (Z.compare (fst a) (fst b))
+  | 2 => 3 * (fst a - fst b)
+  | 3 => 7 * (fst b - fst a)
+  | 4 => sgn3 (Z.compare (Z.quot (fst a) 4) (Z.quot (fst b) 4))
+  | 5 => (Z.quot (fst b) 4 - Z.quot (fst a) 4) * 2
+  | 6 => 0
+  | _ => snd a - snd b
+  end.
+
 (* cmp.Compare on the keys, negated for the descending order *)
-Definition kcmp (desc : bool) (a b : elt) : Z :=
-  let c := match Z.compare (fst a) (fst b) with Lt => -1 | Eq => 0 | Gt => 1 end in
-  if desc then - c else c.
+Definition kcmp (desc : bool) (a b : elt) : Z := ccmp (if desc then 1 else 0) a b.
 
 Definition mk_variant (ph pn : bool) : variant := {| parent_halves := ph; pop_no_siftup := pn |}.
 
 Definition q_step (v : variant) (q : queue elt) (o : op elt) := step elt v q o.
-Definition q_new (desc : bool) : queue elt := New elt (kcmp desc).
+Definition q_new (code : Z) : queue elt := New elt (ccmp code).
 Definition q_data (q : queue elt) : list elt := data q.
-Definition q_sort (v : variant) (desc : bool) (vs : list elt) : res (list elt) := Sort elt v (kcmp desc) vs.
+Definition q_sort (v : variant) (code : Z) (vs : list elt) : res (list elt) := Sort elt v (ccmp code) vs.
